@@ -21,7 +21,7 @@ def run(ctx):
     ctx.tlc_must_pass("MC_Encoder", "MC_Encoder", timeout=900)
     ctx.tlc_must_pass("MC_Decoder", "MC_Decoder_q", timeout=900)
     ctx.tlc_must_pass("MC_EncoderBytes", "MC_EncoderBytes_q" if quick else "MC_EncoderBytes_t", timeout=3000)
-    fams = ["wellformed", "runs", "longruns", "zerofirst", "open", "converse", "reuse"]
+    fams = ["wellformed", "runs", "longruns", "arcshapes", "zerofirst", "open", "converse", "reuse"]
     # "enc": a history without protocol violations must not fail (projection err/mode judged by TV_Encoder) - otherwise
     # there would be no bytes to decode and the history would silently drop out of the round-trip comparison
     r = enccheck.run_enc_traces(ctx, fams, 400 if quick else 40000, ["err", "mode"], want=("enc", "rt", "dec"))
